@@ -346,7 +346,11 @@ def build_container(c):
         out = []
         for i, s in enumerate(c["series"]):
             a = np.array(s, dtype=np.double)
-            if i % 2 == 0:
+            if a.ndim == 2 and i % 3 == 2:
+                # Fortran-ordered (column-major) storage of the same numbers: what a transposed array or a slice of a
+                # (dims x time) recording looks like
+                out.append(np.asfortranarray(a))
+            elif i % 2 == 0:
                 base = np.full((2 * len(s),) + a.shape[1:], 7.75)
                 base[::2] = a
                 out.append(base[::2])
